@@ -54,7 +54,11 @@ Re-run: `tools/run_all_seeds.sh` (scratch worktree of /repo HEAD, nothing in /re
 * **C18-grease-placeholder-compare** -- the helper `keySharesAlreadyGenerated` is specified soundly ("true only if every
   real share has data") but not completely ("true whenever ..."): the completeness clause needs an invariant of the
   outer loop inside the nested loop, which the contract language cannot name; the change makes the helper answer
-  "no" too often.
+  "no" too often. (Retried in round 7 with `false_only_for_reason: !ret ==> a real share lacks data || no real share`
+  plus `!found ==> !atloop(1, found)` as inner invariant: every obligation but one discharged; `atloop(1, found)`
+  evaluates a header phi of loop 1 to its current value instead of its entry value, so "found only grows in the
+  inner loop" cannot be stated and the outer `inv-keep` stays undecided. The clause was not committed; fixing
+  `atloop` for header phis needs a full re-run of all checks and is left as the next engine change.)
 * **C27-fullsize-record-rejected**, **C27-cbc-minpayload-16** -- changes in the upstream record layer
   (`readRecordOrCCS`, `halfConn.decrypt`), which is not under contract (decrypt leaves the verifiable subset: a
   64-bit `&` of two non-constant operands); C27's claim covers the wiring done by MakeConnWithCompleteHandshake, not
